@@ -27,6 +27,17 @@
 (*   pk_self,  a_ok,  c_ret_ok,  g_ok,  u_ok,                              *)
 (*   nothing raises.                                                       *)
 (* Unequal structures with colliding hashes (heq without eq) are allowed.  *)
+(*                                                                         *)
+(* resp: y was built from the same term as x with every literal leaf       *)
+(* RESPELLED - another python value that is == to the original one, hashes *)
+(* like it and is reflected to the same kind (numpy / pandas scalars read  *)
+(* back from data, the sign of a float zero).  Whether such objects are    *)
+(* "the same structure" is the implementation's choice, which it announces *)
+(* with ==; the requirement "compare equal - AND hash equal - ..., so      *)
+(* equal objects are interchangeable as mapping keys" then binds hash,     *)
+(* dict, set and pickling to that answer: Eqv = eq instead of same.        *)
+(* hash_consistency states the same for every observation: objects that    *)
+(* compare equal hash equal and are one mapping key.                       *)
 (***************************************************************************)
 EXTENDS Integers, Sequences, FiniteSets, TLC, Json, IOUtils, TLCExt
 Batch == JsonDeserialize(IOEnv.TRACE_FILE)
@@ -35,17 +46,19 @@ VARIABLES tid
 vars == <<tid>>
 O == Batch.obs[tid]
 Same == O.a = O.b
+Eqv == IF O.resp THEN O.eq ELSE Same
 Clauses == <<
-    [n |-> "eq", ok |-> ~O.x_eq /\ O.eq = Same],
-    [n |-> "eq_reversed", ok |-> ~O.x_eq /\ O.eqr = Same],
-    [n |-> "hash", ok |-> Same => O.heq],
-    [n |-> "dict", ok |-> O.dhit = Same],
-    [n |-> "set", ok |-> O.ssize = (IF Same THEN 1 ELSE 2)],
-    [n |-> "pickle", ok |-> ~O.x_pk /\ O.pk_self /\ (O.pk_b = Same)],
+    [n |-> "eq", ok |-> ~O.x_eq /\ O.eq = Eqv],
+    [n |-> "eq_reversed", ok |-> ~O.x_eq /\ O.eqr = Eqv],
+    [n |-> "hash", ok |-> Eqv => O.heq],
+    [n |-> "dict", ok |-> O.dhit = Eqv],
+    [n |-> "set", ok |-> O.ssize = (IF Eqv THEN 1 ELSE 2)],
+    [n |-> "pickle", ok |-> ~O.x_pk /\ O.pk_self /\ (O.pk_b = Eqv)],
     [n |-> "attribute_access", ok |-> O.a_na \/ O.a_ok],
     [n |-> "parser_cache", ok |-> O.c_na \/ O.c_ret_ok],
     [n |-> "item_access", ok |-> O.g_na \/ O.g_ok],
-    [n |-> "pickle_after_use", ok |-> O.u_na \/ O.u_ok] >>
+    [n |-> "pickle_after_use", ok |-> O.u_na \/ O.u_ok],
+    [n |-> "hash_consistency", ok |-> (O.eq \/ O.eqr) => (O.heq /\ O.dhit /\ O.ssize = 1)] >>
 \* failing clauses as a bit mask (clause i = bit 2^(i-1)): printed values must stay on one line
 RECURSIVE Mask(_)
 Mask(i) == IF i = 0 THEN 0 ELSE Mask(i - 1) + (IF Clauses[i].ok THEN 0 ELSE 2 ^ (i - 1))
